@@ -32,14 +32,14 @@ package fox
 //@   ensures from-published: published[&fox.tree] != nil ==> result.rootTxn.tree == published[&fox.tree] && result.rootTxn.root == published[&fox.tree].root && result.rootTxn.size == published[&fox.tree].size
 //@   assert-at call (*Router).getRoot#1 : lock-then-load: write ==> held[&fox.mu]
 
-//@ func (*iTree).txn props C04,C03
+//@ func (*iTree).txn props C04,C03,C05
 //@   requires t != nil
 //@   modifies snapRef
 //@   ghost-set return : snapRef = nextref
 //@   ensures snap: snapRef == nextref && cacheOK(result)
 //@   ensures result != nil && fresh(result) && result.tree == t && result.root == t.root && result.size == t.size && result.maxParams == t.maxParams && result.depth == t.depth && result.cache == cache && result.writable == nil
 
-//@ func (*tXn).commit props C04,C03
+//@ func (*tXn).commit props C04,C03,C05
 //@   requires t != nil && t.tree != nil
 //@   modifies t.writable, snapRef
 //@   ghost-set return : snapRef = nextref
@@ -47,14 +47,14 @@ package fox
 //@   ensures result != nil && fresh(result) && result.root == t.root && result.size == t.size && result.maxParams == t.maxParams && result.depth == t.depth && result.fox == t.tree.fox
 //@   ensures reset: t.writable == nil
 
-//@ func (*tXn).snapshot props C03
+//@ func (*tXn).snapshot props C03,C05
 //@   requires t != nil
 //@   modifies t.writable, snapRef
 //@   ghost-set return : snapRef = nextref
 //@   ensures snap: snapRef == nextref && cacheOK(t)
 //@   ensures result == t.root && t.writable == nil
 
-//@ func (*tXn).clone props C03,C04
+//@ func (*tXn).clone props C03,C04,C05
 //@   requires t != nil
 //@   modifies t.writable, snapRef
 //@   ghost-set return : snapRef = nextref
